@@ -53,8 +53,14 @@ let parse_cfg (s : string) : hcfg =
 let cfg_text (c : hcfg) =
   let b x = if x then 1 else 0 in
   Printf.sprintf "d=%d t=%d pocca=%d pocma=%d pocs=%d ae=%d pmr=%d socc=%d" c.d c.t (b c.pocca) (b c.pocma) (b c.pocs) (b c.ae) (b c.pmr) c.soccm
+(* element kinds: 0 int, 1 tracked class, 2 struct{int v = 0;} (not trivially default constructible, trivially destructible
+   and copyable), 3 trivial default constructor with user-provided copy operations, 4 tracked class with a noexcept move
+   assignment (same model as 1) *)
+let tracked (c : hcfg) = (c.t = 1 || c.t = 4)
 let mcfg (c : hcfg) : config =
-  { c_rank = nat_of_int c.d; c_trivial = (c.t = 0); c_pocca = c.pocca; c_pocma = c.pocma; c_pocs = c.pocs; c_ae = c.ae;
+  { c_rank = nat_of_int c.d;
+    c_tdc = (c.t = 0 || c.t = 3); c_tdx = not (tracked c); c_quiet = not (tracked c);
+    c_pocca = c.pocca; c_pocma = c.pocma; c_pocs = c.pocs; c_ae = c.ae;
     c_socc = (match c.soccm with 1 -> SoccChild | 2 -> SoccDefault | _ -> SoccSame) }
 
 (* ---------- history text -> model operations ---------- *)
@@ -165,6 +171,32 @@ let parse_op (c : hcfg) (st : state) (toks : string list) : lop =
     if int_of_string k >= i (nel a) then raise (Skip "write-index");
     OWrite (n r, nat_of_int (int_of_string k), zi v)
   | "destroy" :: r :: _ -> ignore (need_live st (slot_of r)); ODestroy (n r)
+  | "vassign" :: _form :: r :: s :: rest ->
+    (* view of r = view of s (two view programs separated by "/"): same extensions required *)
+    let ar = need_live st (slot_of r) in
+    let as_ = need_live st (slot_of s) in
+    if slot_of r = slot_of s then raise (Skip "self-view");
+    let rec split_slash l = match l with
+      | [] -> ([], []) | "/" :: rest -> ([], rest) | x :: rest -> let (a, b) = split_slash rest in (x :: a, b) in
+    let (pr, ps) = split_slash rest in
+    let vr = view_src ar (parse_viewops pr) in
+    let vs = view_src as_ (parse_viewops ps) in
+    if List.map (fun (f, n) -> (i f, i n)) vr.vs_exts <> List.map (fun (f, n) -> (i f, i n)) vs.vs_exts then raise (Skip "vassign-extents");
+    OViewAssign (n r, n s, vr, vs)
+  | "vassign_row" :: _form :: r :: ri :: s :: sj :: _ ->
+    (* row ri of r = row sj of s (D >= 2): the row's elements are those of sliced(i, i+1), its extensions the inner ones *)
+    let ar = need_live st (slot_of r) in
+    let as_ = need_live st (slot_of s) in
+    if d < 2 || slot_of r = slot_of s then raise (Skip "row-form");
+    if i (nel ar) = 0 || i (nel as_) = 0 then raise (Skip "row-of-empty");
+    let row (a : arr) (k : int) : vsrc =
+      let (f0, n0) = List.hd (arr_bx_l a) in
+      if not (f0 <= k && k < f0 + n0) then raise (Skip "row-index");
+      let v = view_src a [OSliced (z k, z (k + 1))] in
+      { vs_exts = List.tl (List.map (fun (f, n) -> (z f, z n)) (arr_bx_l a)); vs_offs = v.vs_offs } in
+    let vr = row ar (int_of_string ri) and vs = row as_ (int_of_string sj) in
+    if List.map (fun (f, n) -> (i f, i n)) vr.vs_exts <> List.map (fun (f, n) -> (i f, i n)) vs.vs_exts then raise (Skip "vassign-extents");
+    OViewAssign (n r, n s, vr, vs)
   | "eq" :: r :: s :: _ -> ignore (need_live st (slot_of r)); ignore (need_live st (slot_of s)); raise (Skip "eq")
   | x :: _ -> failwith ("unknown op " ^ x)
   | [] -> failwith "empty op"
@@ -204,7 +236,8 @@ let print_state (buf : Buffer.t) (c : hcfg) (cid : string) (step : int) (px : pc
             if n <= 0 then "-"
             else match arr_block st a with
               | Some blk -> String.concat "," (List.map (fun cl -> match cl with
-                  | Raw -> string_of_int (i pat) | Alive v -> string_of_int (i v) | Moved v -> string_of_int (i v) ^ "!") blk.b_cells)
+                  | Raw -> string_of_int (i pat) | Alive v -> string_of_int (i v)
+                  | Moved v -> string_of_int (i v) ^ (if tracked c then "!" else "")) blk.b_cells)
               | None -> "?" in
           let blk =
             if n <= 0 then "-"
@@ -222,8 +255,8 @@ let print_state (buf : Buffer.t) (c : hcfg) (cid : string) (step : int) (px : pc
   let out = List.sort compare out in
   let out_s = if out = [] then "-" else String.concat "," (List.map (fun (a, n) -> Printf.sprintf "%d:%d" a n) out) in
   Buffer.add_string buf (Printf.sprintf "G %s %d alive=%d out=%s copies=%s allocs=%s\n" cid step
-    (if c.t = 1 then i (alive_cells st) else 0) out_s
-    (if show_copies && c.t = 1 then string_of_int (i st.s_copies) else "-")
+    (if tracked c then i (alive_cells st) else 0) out_s
+    (if show_copies && tracked c then string_of_int (i st.s_copies) else "-")
     (if show_allocs then string_of_int (i st.s_allocs) else "-"));
   !all_valid
 
@@ -244,7 +277,7 @@ let shows (c : hcfg) (st : state) (toks : string list) (o : lop) : bool * bool =
   | OSwap _ -> (true, true)
   | OClear _ | OAssignIlEmpty _ -> (false, List.hd toks = "clear")
   | OReextent (r, x, _) | OReextentMove (r, x) -> (false, bx_eq x (bxa r))
-  | OReshape _ | OWrite _ -> (false, true)
+  | OReshape _ | OWrite _ | OViewAssign _ -> (false, true)
   | _ -> (false, false)
 
 let run_case (buf : Buffer.t) (cid : string) (c : hcfg) (fault : int) (ops : string list list) : int =
@@ -319,7 +352,7 @@ let run_case (buf : Buffer.t) (cid : string) (c : hcfg) (fault : int) (ops : str
      | None ->
        let outstanding = List.length (List.filter (fun (b : block) -> b.b_live && i b.b_owner <> i std_alloc) !st.s_blocks) in
        Buffer.add_string buf (Printf.sprintf "Z %s alive=%d outstanding=%d fallible=%d\n" cid
-         (if c.t = 1 then i (alive_cells !st) else 0) outstanding (i !st.s_fallible)))
+         (if tracked c then i (alive_cells !st) else 0) outstanding (i !st.s_fallible)))
   end;
   Buffer.add_string buf (Printf.sprintf "E %s\n" cid);
   i !st.s_fallible
@@ -430,11 +463,13 @@ let gen_history (c : hcfg) (p : profile) (maxops : int) : string list list =
           ((if n' = 0 then 0 else f'), n')) e in
       if prod (sizes_of e') <= 40 then e' else e
     | _ -> gen_bx d in
+  let w_vassign = match p.kind with "c09v" -> 300 | "c09" -> 30 | "c04" -> 8 | _ -> 4 in
   let w_ctor, w_copy, w_move, w_assign, w_rext, w_misc, w_destroy =
     match p.kind with
     | "c04" -> (6, 8, 6, 10, 2, 6, 2)
     | "c06" -> (5, 2, 1, 8, 14, 6, 1)
     | "c10" -> (5, 8, 9, 8, 4, 5, 2)
+    | "c09v" -> (8, 3, 1, 24, 1, 2, 1)       (* assignment through views under fault injection *)
     | _ -> (6, 6, 5, 8, 7, 5, 2) in
   let attempt () : string list option =
     let lv = live () and fr = free () in
@@ -451,7 +486,11 @@ let gen_history (c : hcfg) (p : profile) (maxops : int) : string list list =
     match cat with
     | `Ctor ->
       let r = pick fr in
-      (match weighted [ (2, `Def); (4, `Sized); (6, `Fill); (4, `Range); (3, `Il); (2, `Conv) ] with
+      (match weighted [ (2, `Def); (4, `Sized); (6, `Fill); (4, `Range); (3, `Il); (2, `Conv);
+                        ((if has_l then (if p.kind = "c09v" then 30 else if p.kind = "c09" then 7 else 2) else 0), `Twin) ] with
+       | `Twin ->     (* same extensions as a live array: assignments through views need equal extensions *)
+         let s = pick lv in
+         Some ([ "ctor_fill"; sl r; string_of_int (alloc_id ()) ] @ str_bx (exts_of s) @ [ string_of_int (fresh_val ()) ])
        | `Def -> Some [ "ctor_default"; sl r; string_of_int (alloc_id ()) ]
        | `Sized -> Some ([ "ctor_sized"; sl r; string_of_int (alloc_id ()) ] @ str_bx (gen_bx d))
        | `Fill -> Some ([ "ctor_fill"; sl r; string_of_int (alloc_id ()) ] @ str_bx (gen_bx d) @ [ string_of_int (fresh_val ()) ])
@@ -477,8 +516,20 @@ let gen_history (c : hcfg) (p : profile) (maxops : int) : string list list =
       else Some [ "ctor_move_alloc"; sl r; sl s; string_of_int (alloc_id ()) ]
     | `Assign ->
       let r = pick lv in
+      let twins = List.filter (fun x -> x <> r && exts_of x = exts_of r) lv in
+      let rowtwins = List.filter (fun x -> x <> r && d >= 2 && prod (sizes_of (exts_of x)) > 0 && prod (sizes_of (exts_of r)) > 0
+                                            && List.tl (exts_of x) = List.tl (exts_of r)) lv in
       (match weighted [ ((if two then 6 else 1), `Copy); ((if two then 6 else 1), `Move); ((if two then 6 else 0), `View);
-                        (4, `Range); (4, `Il); (1, `IlEmpty); (4, `Fill); (3, `Conv) ] with
+                        (4, `Range); (4, `Il); (1, `IlEmpty); (4, `Fill); (3, `Conv);
+                        ((if twins <> [] then w_vassign else 0), `VAssign); ((if rowtwins <> [] then w_vassign else 0), `VRow) ] with
+       | `VAssign ->
+         let s = pick twins in
+         let prog = if chance 20 then [] else gen_viewops d (exts_of r) in
+         Some ([ "vassign"; string_of_int (rnd 4); sl r; sl s ] @ prog @ [ "/" ] @ prog)
+       | `VRow ->
+         let s = pick rowtwins in
+         let (fr, nr) = List.hd (exts_of r) and (fs, ns) = List.hd (exts_of s) in
+         Some [ "vassign_row"; string_of_int (rnd 3); sl r; string_of_int (fr + rnd nr); sl s; string_of_int (fs + rnd ns) ]
        | `Copy -> let s = if chance 8 then r else pick lv in Some [ "assign_copy"; sl r; sl s ]
        | `Move -> let s = if chance 6 then r else pick lv in Some [ "assign_move"; sl r; sl s ]
        | `View ->
@@ -551,7 +602,7 @@ let emit_case (cid : string) (c : hcfg) (fault : int) (h : string list list) =
 let gen (sd : int) (count : int) (kind : string) (cfgs : string) (maxops : int) (prefix : string) (faults : int) =
   seed sd;
   let c = parse_cfg cfgs in
-  let p = { kind; multi_alloc = (kind = "c10" || kind = "c09" || kind = "c08") } in
+  let p = { kind; multi_alloc = (kind = "c10" || kind = "c09" || kind = "c09v" || kind = "c08") } in
   let scratch = Buffer.create 4096 in
   for k = 1 to count do
     let p = if kind = "c04" || kind = "c06" then { p with multi_alloc = chance 30 } else p in
